@@ -113,6 +113,11 @@ func (g *Gen) freshComp(key string, tag string, top Term) Term {
 // version is well-formed for its Go type (all stores keep this invariant:
 // arithmetic wraps, havocked values get range facts).
 func (g *Gen) compWF(key string, name Term, top Term) {
+	if strings.HasPrefix(key, "MD|") {
+		// the nil map has no keys (writes to it panic: safety.nilmap)
+		g.assert(fmt.Sprintf("(= (select %s 0) ((as const %s) false))", name, arrayElemSort(g.u.compSort[key])))
+		return
+	}
 	t := g.u.compElem[key]
 	if t == nil {
 		return
@@ -120,7 +125,8 @@ func (g *Gen) compWF(key string, name Term, top Term) {
 	// integer ranges are asserted at each load in the code; the quantified
 	// well-formedness fact is kept only for values with structure (slices,
 	// references, interfaces, structs), where contracts read them directly
-	if basicInt(t) != nil {
+	if basicInt(t) != nil && key[0] != 'H' {
+		// (struct fields keep it: contracts read integer fields directly)
 		return
 	}
 	if at, ok := types.Unalias(t).Underlying().(*types.Array); ok && basicInt(at.Elem()) != nil {
